@@ -102,3 +102,260 @@ theorem forInL_range0 {σ : Type} (b : Nat) (init : σ) (body : Int → σ → P
 theorem divceil_def (a b : Nat) : divceil a b = a / b + (if a % b = 0 then 0 else 1) := rfl
 
 end Tls.Rsa
+
+/-! ### lemmas for the PSS functions -/
+namespace Tls.Rsa
+open Tls Tls.Py
+
+theorem getItem_last (em : Bytes) :
+    Py.getItem em (-1) = em.getLast?.map fun l => (l.toNat : Int) := by
+  unfold Py.getItem
+  have h1 : ((-1 : Int) < 0) := by decide
+  simp only [h1, if_true]
+  cases em with
+  | nil => simp
+  | cons a t =>
+    have h2 : ¬ ((-1 : Int) + ((a :: t).length : Nat) < 0) := by simp; omega
+    simp only [h2, if_false]
+    have e : ((-1 : Int) + ((a :: t).length : Nat)).toNat = (a :: t).length - 1 := by
+      simp only [List.length_cons]; omega
+    rw [e, List.getLast?_eq_getElem?]
+
+theorem getItemE_last (em : Bytes) :
+    PyE.getItemE em (-1) = match em.getLast? with
+      | none => .error .indexError
+      | some l => .ok (l.toNat : Int) := by
+  unfold PyE.getItemE
+  rw [getItem_last]
+  cases em.getLast? <;> rfl
+
+theorem getItem_nat' (d : Bytes) (i : Nat) : Py.getItem d (i : Int) = d[i]?.map fun b => (b.toNat : Int) := by
+  unfold Py.getItem
+  have h1 : ¬ ((i : Int) < 0) := by omega
+  simp only [h1, if_false, Int.toNat_natCast]
+
+theorem getItemE_nat (d : Bytes) (i : Nat) :
+    PyE.getItemE d (i : Int) = match d[i]? with
+      | none => .error .indexError
+      | some b => .ok (b.toNat : Int) := by
+  unfold PyE.getItemE
+  rw [getItem_nat']
+  cases d[i]? <;> rfl
+
+theorem getItemE_zero (d : Bytes) :
+    PyE.getItemE d 0 = match d.head? with
+      | none => .error .indexError
+      | some b => .ok (b.toNat : Int) := by
+  have := getItemE_nat d 0
+  rw [show ((0 : Nat) : Int) = 0 from rfl] at this
+  rw [this]
+  cases d <;> rfl
+
+theorem slice_0_to (d : Bytes) (n : Nat) : Py.slice d (some 0) (some (n : Int)) = d.take n := by
+  have := Tls.Py.slice_to d n
+  unfold Py.slice at this ⊢
+  have h0 : Py.sliceBound d.length 0 = 0 := by
+    unfold Py.sliceBound; simp
+  simp only [h0]
+  exact this
+
+theorem slice_drop_take (d : Bytes) (a n : Nat) :
+    Py.slice d (some (a : Int)) (some ((a + n : Nat) : Int)) = (d.drop a).take n := by
+  unfold Py.slice
+  simp only [Py.sliceBound_nat]
+  by_cases h1 : a < d.length
+  · by_cases h2 : a + n < d.length
+    · simp only [h1, h2, if_true]
+      congr 1; omega
+    · simp only [h1, h2, if_true, if_false]
+      rw [List.take_of_length_le (by simp), List.take_of_length_le (by simp; omega)]
+  · have h2 : ¬ a + n < d.length := by omega
+    simp only [h1, h2, if_false]
+    rw [List.drop_of_length_le (Nat.le_refl _), List.drop_of_length_le (by omega)]
+    simp
+
+theorem slice_neg_from (d : Bytes) (s : Nat) (hs : 0 < s) :
+    Py.slice d (some (-(s : Int))) none = d.drop (d.length - s) := by
+  unfold Py.slice Py.sliceBound
+  have h1 : (-(s : Int)) < 0 := by omega
+  simp only [h1, if_true]
+  have e : (-(s : Int) + (d.length : Nat)).toNat = d.length - s := by omega
+  rw [e, List.take_of_length_le (by simp)]
+
+theorem xor_mask8 (r : Nat) (h : r < 256) : 255 ^^^ r = 255 - r := by
+  have h1 : (~~~ (BitVec.ofNat 8 r)).toNat = 2^8 - 1 - (BitVec.ofNat 8 r).toNat := BitVec.toNat_not
+  rw [BitVec.not_def, BitVec.toNat_xor, BitVec.toNat_allOnes, BitVec.toNat_ofNat,
+    Nat.mod_eq_of_lt (by omega)] at h1
+  exact h1
+
+/-- `(~x) & 0xff` for a non-negative `x` -/
+theorem band_bnot_255 (x : Nat) : Py.band (Py.bnot (x : Int)) 255 = ((255 - x % 256 : Nat) : Int) := by
+  have hb : Py.bnot (x : Int) = Int.negSucc x := by
+    unfold Py.bnot; rw [Int.negSucc_eq]; omega
+  rw [hb]
+  show ((255 ^^^ (255 &&& x) : Nat) : Int) = _
+  have h1 := Nat.and_two_pow_sub_one_eq_mod x 8
+  simp only [show (2:Nat)^8 - 1 = 255 from rfl, show (2:Nat)^8 = 256 from rfl] at h1
+  rw [Nat.and_comm, h1, xor_mask8 _ (Nat.mod_lt _ (by decide))]
+
+/-- `bytearray(i ^ j for i, j in zip(a, b))` -/
+theorem xor_zip_eq : ∀ (a b : Bytes),
+    Py.bytearrayOfInts ((PyE.zipBytes a b).map fun xy => Py.bxor xy.1 xy.2) = some (xorBytes a b)
+  | [], _ => rfl
+  | _ :: _, [] => rfl
+  | x :: xs, y :: ys => by
+    have ih := xor_zip_eq xs ys
+    unfold Py.bytearrayOfInts at ih ⊢
+    unfold xorBytes PyE.zipBytes at *
+    simp only [List.zipWith_cons_cons, List.map_cons, List.mapM_cons, bxor_nat]
+    have h3 : x.toNat ^^^ y.toNat < 2^8 := Nat.xor_lt_two_pow x.toNat_lt y.toNat_lt
+    have hb : (0 : Int) ≤ ((x.toNat ^^^ y.toNat : Nat) : Int) ∧ ((x.toNat ^^^ y.toNat : Nat) : Int) < 256 := by omega
+    simp only [hb, and_self, if_true, Int.toNat_natCast]
+    rw [ih]
+    have : UInt8.ofNat (x.toNat ^^^ y.toNat) = x ^^^ y := by
+      apply UInt8.toNat_inj.mp
+      rw [UInt8.toNat_ofNat', UInt8.toNat_xor]
+      exact Nat.mod_eq_of_lt h3
+    rw [this]
+    rfl
+
+/-- `db[0] &= mask` -/
+theorem setItem_head_and (db : Bytes) (mask : Nat) :
+    (PyE.getItemE db 0).bind (fun v => PyE.setItem db 0 (Py.band v (mask : Int))) = liftP (maskHead mask db) := by
+  cases db with
+  | nil => rfl
+  | cons x xs =>
+    rw [getItemE_zero]
+    show PyE.setItem (x :: xs) 0 (Py.band (x.toNat : Int) (mask : Int)) = _
+    rw [band_nat]
+    unfold PyE.setItem
+    have hlt : x.toNat &&& mask < 256 := Nat.lt_of_le_of_lt Nat.and_le_left x.toNat_lt
+    have h1 : ¬ ((0 : Int) < 0) := by decide
+    have h2 : ¬ ((0 : Int) < 0 ∨ (0 : Int) ≥ (((x :: xs).length : Nat) : Int)) := by simp
+    have h3 : ¬ (((x.toNat &&& mask : Nat) : Int) < 0 ∨ ((x.toNat &&& mask : Nat) : Int) ≥ 256) := by omega
+    simp only [h1, if_false, h2, h3, Int.toNat_natCast]
+    rfl
+
+theorem anyNonZero_eq (b : Bytes) : PyE.anyNonZero b = b.any (· ≠ 0) := by
+  unfold PyE.anyNonZero
+  congr 1
+  funext v
+  by_cases h : v = 0 <;> simp [h]
+
+theorem zeros_nat (n : Nat) : PyE.zeros (n : Int) = .ok (List.replicate n (0 : UInt8)) := by
+  unfold PyE.zeros
+  have : ¬ ((n : Int) < 0) := by omega
+  simp only [this, if_false, Int.toNat_natCast]
+
+theorem divceil8_bounds (a : Nat) : a ≤ 8 * divceil a 8 ∧ 8 * divceil a 8 < a + 8 := by
+  unfold divceil
+  have := Nat.div_add_mod a 8
+  by_cases h : a % 8 = 0 <;> simp only [h, if_true, if_false] <;> omega
+
+end Tls.Rsa
+
+namespace Tls.Rsa
+theorem bind_bind_of {α β γ : Type} {x : PyE.M α} {f : α → PyE.M β} {y : PyE.M β} (h : x.bind f = y)
+    (g : β → PyE.M γ) : Except.bind x (fun a => Except.bind (f a) g) = Except.bind y g := by
+  rw [← h]; cases x <;> rfl
+theorem liftP_err {α : Type} (e : Err) : liftP (.error e : Except Err α) = .error e.toE := Eq.trans rfl rfl
+theorem err_bind' {α β : Type} (e : PyE.Err) (f : α → PyE.M β) : (Except.error e : PyE.M α).bind f = .error e :=
+  Eq.trans rfl rfl
+end Tls.Rsa
+
+namespace Tls.Rsa
+open Tls Tls.Py
+
+/-- an invariant of a `while` loop holds of whatever state the loop returns, and the condition is false there -/
+theorem whileLoop_inv {σ : Type} (cond : σ → Bool) (body : σ → PyE.M σ) (P : σ → Prop)
+    (hstep : ∀ s s', P s → cond s = true → body s = .ok s' → P s') :
+    ∀ (fuel : Nat) (s0 s : σ), P s0 → PyE.whileLoop cond body fuel s0 = .ok s → P s ∧ cond s = false := by
+  intro fuel
+  induction fuel with
+  | zero =>
+    intro s0 s h0 h
+    unfold PyE.whileLoop at h
+    by_cases hc : cond s0 = true
+    · simp [hc] at h
+    · simp only [hc, Bool.false_eq_true, if_false] at h
+      cases h
+      exact ⟨h0, by simpa using hc⟩
+  | succ f ih =>
+    intro s0 s h0 h
+    unfold PyE.whileLoop at h
+    by_cases hc : cond s0 = true
+    · simp only [hc, if_true] at h
+      cases hb : body s0 with
+      | error e => rw [hb] at h; cases h
+      | ok s1 =>
+        rw [hb] at h
+        exact ih s1 s (hstep s0 s1 h0 hc hb) h
+    · simp only [hc, Bool.false_eq_true, if_false] at h
+      cases h
+      exact ⟨h0, by simpa using hc⟩
+
+/-- a loop whose first iteration already falsifies the condition -/
+theorem whileLoop_once {σ : Type} (cond : σ → Bool) (body : σ → PyE.M σ) (fuel : Nat) (s0 s1 : σ)
+    (hc0 : cond s0 = true) (hb : body s0 = .ok s1) (hc1 : cond s1 = false) :
+    PyE.whileLoop cond body (fuel + 1) s0 = .ok s1 := by
+  unfold PyE.whileLoop
+  simp only [hc0, if_true, hb]
+  show PyE.whileLoop cond body fuel s1 = _
+  cases fuel <;> (unfold PyE.whileLoop; simp [hc1])
+
+/-- `bytearray([0, 2] + pad + [0])` for a pad of non-zero byte values -/
+theorem pad2_bytes : ∀ (l : List Int), (∀ v ∈ l, 1 ≤ v ∧ v < 256) →
+    Py.bytearrayOfInts (([(0 : Int), 2] ++ l) ++ [(0 : Int)]) =
+      some ([0, 2] ++ l.map (fun v => UInt8.ofNat v.toNat) ++ [0]) := by
+  intro l hl
+  unfold Py.bytearrayOfInts
+  have h : ∀ (l : List Int), (∀ v ∈ l, 1 ≤ v ∧ v < 256) →
+      List.mapM (fun v : Int => if 0 ≤ v ∧ v < 256 then some (UInt8.ofNat v.toNat) else none) (l ++ [(0 : Int)])
+        = some (l.map (fun v => UInt8.ofNat v.toNat) ++ [0]) := by
+    intro l
+    induction l with
+    | nil => intro _; rfl
+    | cons a t ih =>
+      intro hl
+      have ha := hl a (List.mem_cons_self ..)
+      have hc : (0 ≤ a ∧ a < 256) := by omega
+      rw [List.cons_append, List.mapM_cons, ih (fun v hv => hl v (List.mem_cons_of_mem _ hv))]
+      simp only [hc, and_self, if_true]
+      rfl
+  simp only [List.cons_append, List.nil_append, List.append_assoc, List.mapM_cons, h l hl]
+  rfl
+
+theorem filterNonZero_range (b : Bytes) : ∀ v ∈ PyE.filterNonZero b, 1 ≤ v ∧ v < 256 := by
+  intro v hv
+  unfold PyE.filterNonZero PyE.iterBytes at hv
+  rw [List.mem_filter, List.mem_map] at hv
+  obtain ⟨⟨x, _, rfl⟩, hnz⟩ := hv
+  have := x.toNat_lt
+  have hne : (x.toNat : Int) ≠ 0 := by simpa using hnz
+  omega
+
+end Tls.Rsa
+
+namespace Tls.Rsa
+/-- a loop stuck in a state that the body maps to itself runs out of fuel -/
+theorem whileLoop_stuck {σ : Type} (cond : σ → Bool) (body : σ → PyE.M σ) (s1 : σ)
+    (hc : cond s1 = true) (hb : body s1 = .ok s1) : ∀ fuel, PyE.whileLoop cond body fuel s1 = .error .fuel := by
+  intro fuel
+  induction fuel with
+  | zero => unfold PyE.whileLoop; simp [hc]
+  | succ f ih => unfold PyE.whileLoop; simp only [hc, if_true, hb]; exact ih
+end Tls.Rsa
+
+namespace Tls.Rsa
+/-- `_rawPrivateKeyOp` of the hand model (blinded CRT) as a function of the message, for a given blinding
+    state and random number -/
+def privOf (k : PrivKey) (st : Blind) (rnd : Nat) : Nat → Nat := fun m => (rawPrivateKeyOp k st rnd m).1
+end Tls.Rsa
+
+namespace Tls.Rsa
+theorem bind_pure' {α : Type} (x : PyE.M α) : Except.bind x (fun a => Except.pure a) = x := by cases x <;> rfl
+theorem liftP_bind {α β : Type} (x : Except Err α) (f : α → Except Err β) :
+    liftP (x.bind f) = Except.bind (liftP x) (fun a => liftP (f a)) := by cases x <;> rfl
+theorem liftP_map {α β : Type} (x : Except Err α) (g : α → β) :
+    liftP (Except.map g x) = Except.map g (liftP x) := by cases x <;> rfl
+end Tls.Rsa
